@@ -2,8 +2,8 @@
 
 Explicit-state exploration of call histories on ONE schema object.  A state is the event history that
 reaches it, rebuilt on a fresh schema by replaying the real public calls (live schemas are not copied).
-Pass A: the full tree of histories WITHOUT merging up to depth 2 (quick) / 3 (thorough: seed-independent,
-complete).  Pass B: breadth-first search to fixpoint over states merged by the object-graph fingerprint
+Pass A: the full tree of histories WITHOUT merging: depth 2 over all events (both tiers) and depth 3 over the
+core operations (thorough).  Pass B: breadth-first search to fixpoint over states merged by the object-graph fingerprint
 (mc/core/objgraph.py).  Invariant in every state: every event gives the same result as on a fresh schema.
 """
 import itertools
@@ -36,18 +36,24 @@ def fresh_results(version):
     return enc, out
 
 
+CORE_OPS = ('iter_errors', 'decode', 'lazy', 'encode', 'st-valid')
+
+
+def core_events(version):
+    return [e for e in P.events(version) if e[0] in CORE_OPS]
+
+
 def shards(tier, seed):
-    depth = 2 if tier == 'quick' else 3
     out = []
     for version in ('1.0', '1.1'):
         evs = P.events(version)
-        if depth == 2:
-            for i in range(0, len(evs), 4):
-                out.append(('A', version, depth, i, min(i + 4, len(evs))))
-        else:
-            for i in range(len(evs)):
-                for j in range(0, len(evs), 22):
-                    out.append(('A3', version, depth, i, j))
+        for i in range(0, len(evs), 4):
+            out.append(('A', version, 2, i, min(i + 4, len(evs))))
+        if tier == 'thorough':
+            core = core_events(version)
+            for i in range(len(core)):
+                for j in range(0, len(core), 16):
+                    out.append(('A3', version, 3, i, j))
         out.append(('B', version, 0, 0, 0))
     return out
 
@@ -82,9 +88,10 @@ def run_shard(shard, acc):
                 judge(acc, version, (e1, e2), got, fresh[e2])
         return
     if kind == 'A3':
-        e1 = evs[lo]
-        for e2 in evs[hi:hi + 22]:
-            for e3 in evs:
+        core = core_events(version)
+        e1 = core[lo]
+        for e2 in core[hi:hi + 16]:
+            for e3 in core:
                 with acc.guard(60):
                     s, got = replay_history(version, (e1, e2, e3), enc)
                 judge(acc, version, (e1, e2, e3), got, fresh[e3])
@@ -147,5 +154,6 @@ def replay(case):
 
 
 def bounds(tier, seed):
-    return {'events': len(P.events('1.0')), 'unmerged_depth': 2 if tier == 'quick' else 3,
+    return {'events': len(P.events('1.0')), 'unmerged_depth': 'all histories of length 2 over all events' + (
+                '' if tier == 'quick' else '; all histories of length 3 over the %d core events (%s)' % (len(core_events('1.0')), ', '.join(CORE_OPS))),
             'merged_bfs': 'to fixpoint of the object-graph fingerprint (level cap 6)', 'versions': ['1.0', '1.1']}
